@@ -705,3 +705,119 @@ def generate_apply_tensor(prop, label):
     d, a, h = int(m.group(1)), int(m.group(2)), m.group(3) == "stats"
     return run_contract(prop, ("post", "Standardize._apply_tensor"), contract_apply_tensor(h), [(label, setup_apply_tensor(d, a, h))],
                         name="std_apply_tensor", fname="Standardize._apply_tensor")
+
+
+# ------------------------------------------------------------------------------------------------------------- accumulate / apply (dispatch)
+# The two public entry points only choose between the vector and the tensor routine (both under contract above):
+#     an array without elements                 -> ValueError, nothing called (for every rank, whichever dimension is empty)
+#     more than one dimension                   -> the tensor routine, ONCE, with (features, axis[, in_place]) exactly as given
+#     one dimension                             -> the vector routine, ONCE, with (features[, in_place]); `axis` is irrelevant for a vector
+# and `apply` returns what the routine returns. Shapes are modelled by their rank (1, 2, 3 enumerated) and symbolic dimensions.
+class FeatArr:
+    def __init__(self, dims):
+        self.dims = dims
+
+    def sym_getattr(self, attr, ev, node):
+        if attr == "shape":
+            return tuple(self.dims)
+        if attr == "ndim":
+            return len(self.dims)
+        raise Outside(f"feature array attribute .{attr}")
+
+    def sym_len(self):
+        return self.dims[0]
+
+
+def setup_dispatch(rank):
+    def _setup(ex, st):
+        dims = [api.sym(f"d{k}") for k in range(rank)]
+        for d in dims:
+            st.assume(d >= 0)
+        api.mk_obj(st, "self", "Standardize", {})
+        st.env.update({"features": FeatArr(dims), "axis": api.sym("axis"), "in_place": api.sym("in_place", "bool")})
+        st.ghost.update(calls=[])
+        ex.ctx = dict(rank=rank, dims=dims)
+    return _setup
+
+
+def _h_prod_shape(ex, st, args, kwargs, node, ev):
+    (shape,) = args
+    if not isinstance(shape, tuple):
+        raise Outside("np.prod form")
+    r = z3.IntVal(1)
+    for d in shape:
+        r = r * Z(d)
+    return simp(r)
+
+
+def _h_routine(name):
+    def h(ex, st, o, args, kwargs, node, ev):
+        st.ghost["calls"] = st.ghost["calls"] + [(name, tuple(args), dict(kwargs))]
+        return Opaque(("result_of", name), "array")
+    return h
+
+
+def _h_dispatch_truthiness(ex, st, v):
+    if isinstance(v, tuple):
+        return len(v) > 0
+    return NotImplemented
+
+
+def contract_dispatch(which):
+    tensor, vector = ("_accumulate_tensor", "_accumulate_vector") if which == "accumulate" else ("_apply_tensor", "_apply_vector")
+
+    def empty(ev):
+        return z3.Or(*[Z(d) == 0 for d in ev.ex.ctx["dims"]])
+
+    def call_ok(ev):
+        st, c = ev.st, ev.ex.ctx
+        calls = st.ghost["calls"]
+        if len(calls) != 1:
+            return False
+        name, args, kw = calls[0]
+        f, ax, ip = st.env["features"], st.env["axis"], st.env["in_place"]
+        if kw:
+            return False
+        if c["rank"] > 1:
+            want = (f, ax) if which == "accumulate" else (f, ax, ip)
+            return name == tensor and len(args) == len(want) and all(a is b for a, b in zip(args, want))
+        want = (f,) if which == "accumulate" else (f, ip)
+        return name == vector and len(args) == len(want) and all(a is b for a, b in zip(args, want))
+
+    def result_ok(ev, res):
+        if which == "accumulate":
+            return res is None
+        calls = ev.st.ghost["calls"]
+        return isinstance(res, Opaque) and len(calls) == 1 and res.term == ("result_of", calls[0][0])
+
+    c = Contract(
+        target=f"post:Standardize.{which}", uses=["A-PYSEM"],
+        consts={"EMPTY": SpecFn(empty), "CALL_OK": SpecFn(call_ok), "RESULT_OK": SpecFn(result_ok), "NO_CALL": SpecFn(lambda ev: len(ev.st.ghost["calls"]) == 0)},
+        handlers={"np.prod": _h_prod_shape, "truthiness": _h_dispatch_truthiness,
+                  "Standardize." + tensor: _h_routine(tensor), "Standardize." + vector: _h_routine(vector)},
+        raises={"ValueError": "EMPTY()"},
+        ensures=[("exactly_one_call_of_the_routine_for_the_rank_with_the_callers_arguments", "CALL_OK()"), ("returns_the_routines_result", "RESULT_OK(result)")],
+    )
+    c.ensures_raise = {"ValueError": [("nothing_called", "NO_CALL()")]}
+    return c
+
+
+def unit_dispatch(prop="C16"):
+    def unit(tier, known):
+        from contracts.registry import run_contract
+        from pyvc.check import UnitResult
+        u = None
+        for which in ("accumulate", "apply"):
+            r = run_contract(prop, ("post", f"Standardize.{which}"), contract_dispatch(which), [(f"rank{k}", setup_dispatch(k)) for k in (1, 2, 3)],
+                             name="std_dispatch", fname=f"Standardize.{which}", to_case=to_case, replay_module="rtc.c16")
+            if u is None:
+                u = r
+            else:
+                u.obligations += r.obligations
+                u.canaries += r.canaries
+                u.outside += r.outside
+                u.functions += r.functions
+                u.assumptions |= r.assumptions
+        return u
+    unit.__name__ = "std_dispatch"
+    return unit
